@@ -114,5 +114,126 @@ pub open spec fn is_suffix<T>(a: Seq<T>, b: Seq<T>) -> bool { a.len() <= b.len()
             is_suffix(msgs@, old(msgs)@),
 //@END
 
+// ------------------------------------------------------------------ the per-client fan-out step of run_transport
+#[derive(Clone, Copy)]
+pub struct Token(pub usize);
+/// exporter State (client_count / should_send are atomics behind `&self`): what this check needs is a FRAME condition --
+/// which steps may change the client count at all
+#[verifier::external_body] pub struct State { _p: [u8; 0] }
+impl State {
+    /// fixed by the `requires` of the function under proof: may this step call decrement_clients?
+    pub uninterp spec fn decrement_permitted(&self) -> bool;
+    #[verifier::external_body]
+    pub fn decrement_clients(&self) requires self.decrement_permitted() { unimplemented!() }
+}
+// R2f: `let _ = Q.drain(0..N);` -> shim_drain_front(Q, N)  (std: VecDeque::drain panics when the range end exceeds the length)
+#[verifier::external_body]
+pub fn shim_drain_front(q: &mut VecDeque<Bytes>, n: usize)
+    requires n <= old(q)@.len(),
+    ensures final(q)@ == old(q)@.skip(n as int),
+{ unimplemented!() }
+// R2g: `Q.extend(B.iter().take(N).cloned())` -> shim_extend_take_cloned(Q, B, N)  (clone of Bytes is the same byte string)
+#[verifier::external_body]
+pub fn shim_extend_take_cloned(q: &mut VecDeque<Bytes>, b: &VecDeque<Bytes>, n: usize)
+    ensures final(q)@ == old(q)@ + b@.take(if n <= b@.len() { n as int } else { b@.len() as int }),
+{ unimplemented!() }
+
+pub proof fn lemma_flat_concat(a: Seq<Bytes>, b: Seq<Bytes>)
+    ensures flat(a + b) == flat(a) + flat(b),
+    decreases a.len(),
+{
+    if a.len() == 0 {
+        assert(a + b =~= b);
+        assert(flat(a) =~= Seq::<u8>::empty());
+        assert(flat(a) + flat(b) =~= flat(b));
+    } else {
+        assert((a + b)[0] == a[0]);
+        assert((a + b).skip(1) =~= a.skip(1) + b);
+        lemma_flat_concat(a.skip(1), b);
+        assert(flat(a + b) =~= a[0]@ + (flat(a.skip(1)) + flat(b)));
+        assert(flat(a) + flat(b) =~= a[0]@ + (flat(a.skip(1)) + flat(b)));
+    }
+}
+pub proof fn lemma_cancel_suffix(x: Seq<u8>, y: Seq<u8>, t: Seq<u8>)
+    requires x + t == y + t,
+    ensures x == y,
+{
+    assert((x + t).len() == x.len() + t.len());
+    assert((y + t).len() == y.len() + t.len());
+    assert forall|i: int| 0 <= i < x.len() implies x[i] == y[i] by {
+        assert((x + t)[i] == x[i]);
+        assert((y + t)[i] == y[i]);
+    }
+    assert(x =~= y);
+}
+pub open spec fn parked(w: Option<Bytes>) -> Seq<u8> { match w { Some(b) => b@, None => Seq::<u8>::empty() } }
+/// what the client is still to receive after a fan-out step that sent the first `a` queued frames' worth, discarded the `d`
+/// oldest remaining WHOLE frames and appended the batch
+pub open spec fn kept(q: Seq<Bytes>, a: int, d: int, batch: Seq<Bytes>) -> Seq<Bytes> {
+    q.take(a) + q.skip(a + d) + batch
+}
+
+#[verifier::exec_allows_no_decreases_clause]
+// R29: the body of `for (token, (conn, wbuf, msgs)) in clients.iter_mut() { .. }` lifted to a function (loop variables and the
+// captured locals become parameters); R31: `continue` of that loop -> `return`
+//@ITEM file=metrics-exporter-tcp/src/lib.rs sel=fn run_transport lift_after=in clients.iter_mut() as=fn fanout_client(token: &Token, conn: &mut TcpStream, wbuf: &mut Option<Bytes>, msgs: &mut VecDeque<Bytes>, buffered_pmsgs: &VecDeque<Bytes>, buffer_limit: usize, clients_to_remove: &mut Vec<Token>, state: &State)
+//@REWRITE R31 continue; ==> return;
+//@REWRITE R2f re:let _ = (\w+)\.drain\(0\.\.(\w+)\); ==> shim_drain_front(\1, \2);
+//@REWRITE R2g re:(\w+)\.extend\((\w+)\.iter\(\)\.take\((\w+)\)\.cloned\(\)\); ==> shim_extend_take_cloned(\1, \2, \3);
+//@SPEC
+    requires
+        old(msgs)@.len() <= buffer_limit,              // the per-client queue is bounded (maintained below)
+        buffered_pmsgs@.len() <= buffer_limit,         // the batch was read under the same bound (rx loop of run_transport)
+        // FRAME: a client is taken out of the accounting where it is taken out of the client map (the removal loop after the
+        // fan-out, like the per-token arm does) -- not here, or it would be counted out twice
+        !state.decrement_permitted(),
+    ensures
+        final(msgs)@.len() <= buffer_limit,
+        // scheduled for removal at most once
+        final(clients_to_remove)@ == old(clients_to_remove)@ || final(clients_to_remove)@ == old(clients_to_remove)@.push(*token),
+        // a client that stays: its stream is still `sent ++ parked remainder ++ whole frames`: of the frames queued for it, the
+        // `d` oldest not yet started may have been discarded (drop-oldest) -- never part of a frame, and nothing else
+        final(clients_to_remove)@ == old(clients_to_remove)@ ==> exists|a: int, d: int| 0 <= a && 0 <= d && a + d <= old(msgs)@.len()
+            && final(conn).sent() + owed(*final(wbuf), final(msgs)@)
+                == old(conn).sent() + owed(*old(wbuf), #[trigger] kept(old(msgs)@, a, d, buffered_pmsgs@)),
+//@AFTER 1 stmt:let done = drive_connection(
+                        let ghost sent1 = conn.sent();
+                        let ghost w1 = *wbuf;
+                        let ghost q1 = msgs@;
+//@AFTER 1 clients_to_remove.push(*token);
+                            assert(clients_to_remove@.len() == old(clients_to_remove)@.len() + 1);
+//@AFTER 2 clients_to_remove.push(*token);
+                            assert(clients_to_remove@.len() == old(clients_to_remove)@.len() + 1);
+//@AFTER 1 stmt:shim_extend_take_cloned(
+                        let ghost q2 = msgs@;
+                        let ghost dd = to_drain as int;
+//@BODYEND
+                        proof {
+                            let q0 = old(msgs)@;
+                            let batch = buffered_pmsgs@;
+                            if !done {
+                                let a = q0.len() - q1.len();
+                                assert(q1 =~= q0.skip(a));
+                                assert(batch.take(batch.len() as int) =~= batch);
+                                assert(q2 =~= q0.skip(a + dd) + batch);
+                                assert(q0.take(a) + q0.skip(a) =~= q0);
+                                lemma_flat_concat(q0.take(a), q0.skip(a));
+                                lemma_flat_concat(q0.take(a) + q0.skip(a + dd), batch);
+                                lemma_flat_concat(q0.take(a), q0.skip(a + dd));
+                                lemma_flat_concat(q0.skip(a + dd), batch);
+                                let s0 = old(conn).sent() + parked(*old(wbuf));
+                                // first drive: sent1 ++ w1 ++ flat(q0.skip(a)) == s0 ++ flat(q0.take(a)) ++ flat(q0.skip(a))
+                                assert((sent1 + parked(w1)) + flat(q1) =~= sent1 + owed(w1, q1));
+                                assert((s0 + flat(q0.take(a))) + flat(q1) =~= old(conn).sent() + owed(*old(wbuf), q0));
+                                lemma_cancel_suffix(sent1 + parked(w1), s0 + flat(q0.take(a)), flat(q1));
+                                // second drive conserves sent1 ++ w1 ++ flat(q2)
+                                assert(conn.sent() + owed(*wbuf, msgs@) == sent1 + owed(w1, q2));
+                                assert(sent1 + owed(w1, q2) =~= (sent1 + parked(w1)) + flat(q2));
+                                assert(old(conn).sent() + owed(*old(wbuf), kept(q0, a, dd, batch)) =~= (s0 + flat(q0.take(a))) + flat(q2));
+                                assert(0 <= a && 0 <= dd && a + dd <= q0.len());
+                            }
+                        }
+//@END
+
 } // verus!
 fn main() {}
